@@ -6,6 +6,7 @@ import (
 	"bytes"
 	"context"
 	"fmt"
+	"strings"
 	"testing"
 
 	"google.golang.org/protobuf/proto"
@@ -105,6 +106,12 @@ func c14Explore(rep *vrep.Report, seed int64, cfg c14Cfg, flipStates map[string]
 			}
 			lanes = append(lanes, &c14Lane{g: g, s: cs})
 		}
+	} else if cfg.Kind == "two-senders" {
+		// two sender devices in ONE group: their counters overlap and drift apart, the receiver keeps one reference
+		// window per sender
+		g, r0, senders := c02BuildN(seed, c02Cfg{Kind: "multimember", W: cfg.W, N: cfg.N, C: []int{cfg.C, cfg.C}, Senders: 2}, cfg.Refs)
+		R0 = r0
+		lanes = append(lanes, &c14Lane{g: g, s: senders[0]}, &c14Lane{g: g, s: senders[1]})
 	} else {
 		g, r0, senders := c02BuildN(seed, c02Cfg{Kind: cfg.Kind, W: cfg.W, N: cfg.N, C: []int{cfg.C}, Senders: 1}, cfg.Refs)
 		R0 = r0
@@ -341,5 +348,110 @@ func TestVerifC14(t *testing.T) {
 			c14Explore(rep, seed, cfg, map[string]bool{})
 		}
 	}
+	for _, refs := range []int{1, 2} {
+		cfg := c14Cfg{Kind: "two-senders", W: 2, N: n2 + 1, Refs: refs, C: 0}
+		cfgs = append(cfgs, cfg)
+		c14Explore(rep, seed, cfg, map[string]bool{})
+	}
 	rep.Set("configurations", int64(len(cfgs)))
+	c14Faults(rep, seed)
+}
+
+// c14Faults: one transient storage fault during a push open (or during the reference-window update of a log open).
+// Afterwards the log path must be undisturbed: everything the reference ratchet calls openable opens, with the
+// original payload, and the push payload of a delivered message still opens flagged as received.
+func c14Faults(rep *vrep.Report, seed int64) {
+	cfg := c02Cfg{Kind: "multimember", W: 2, N: 5, C: []int{0}, Senders: 1}
+	g, R0, ss := c02BuildN(seed, cfg, 2)
+	s := ss[0]
+	ctx := context.Background()
+	must(R0.st.PutGroup(ctx, g))
+	var pushes [][]byte
+	for i := 0; i < cfg.N; i++ {
+		env, headers, err := s.p.st.OpenEnvelopeHeaders(s.envs[i], g)
+		must(err)
+		oos, err := s.p.st.SealOutOfStoreMessageEnvelope(cidOf(s.envs[i]), env, headers, g)
+		must(err)
+		pushes = append(pushes, mustBytes(proto.Marshal(oos)))
+	}
+	must(R0.st.RegisterChainKey(ctx, g, s.p.md(g).Device(), s.anns[0]))
+	type base struct {
+		name   string
+		prep   func(R *party)
+		opened int
+	}
+	bases := []base{
+		{"registered", func(R *party) {}, 0},
+		{"registered, 1 delivered", func(R *party) { R.logOpen(g, s.envs[0]) }, 1},
+	}
+	for _, b := range bases {
+		for _, target := range []string{"push(1)", "push(2)", "log(1)", "log(2)"} {
+			var k int
+			var kind string
+			if n, _ := fmt.Sscanf(target, "push(%d)", &k); n == 1 {
+				kind = "push"
+			} else {
+				fmt.Sscanf(target, "log(%d)", &k)
+				kind = "log"
+			}
+			run := func(R *party) bool {
+				if kind == "push" {
+					r := R.pushOpen(pushes[k-1])
+					if r.ok && (!bytes.Equal(r.payload, s.pay[k-1]) || r.counter != uint64(k)) {
+						rep.Violation("C14/push-wrong-content", target+" under a storage fault returned other content", map[string]interface{}{"target": target})
+					}
+					return r.ok
+				}
+				return R.logOpen(g, s.envs[k-1]).ok
+			}
+			S0 := R0.cloneParty()
+			b.prep(S0)
+			n := 0
+			dry := S0.cloneParty()
+			dry.ds.fail = func(op, key string) error { n++; return nil }
+			run(dry)
+			for i := 0; i < n; i++ {
+				P := S0.cloneParty()
+				cnt := 0
+				var fop string
+				P.ds.fail = func(op, key string) error {
+					cnt++
+					if cnt-1 == i {
+						fop = op + " " + key
+						return fmt.Errorf("injected: database is locked")
+					}
+					return nil
+				}
+				ok1 := run(P)
+				P.ds.fail = nil
+				rep.AddTransitions(1)
+				opened := map[int]bool{}
+				if b.opened == 1 {
+					opened[1] = true
+				}
+				cls, firstBad := "ok", ""
+				for j := 1; j <= cfg.N && j <= cfg.W+len(opened); j++ {
+					r := P.logOpen(g, s.envs[j-1])
+					if !r.ok {
+						cls, firstBad = "log-path-disturbed", fmt.Sprintf("message %d: %s", j, r.err)
+						break
+					}
+					if !bytes.Equal(r.payload, s.pay[j-1]) {
+						cls, firstBad = "log-path-wrong-content", fmt.Sprintf("message %d", j)
+						break
+					}
+					opened[j] = true
+					if pr := P.pushOpen(pushes[j-1]); !pr.ok || !pr.received || !bytes.Equal(pr.payload, s.pay[j-1]) {
+						cls, firstBad = "push-of-delivered-message", fmt.Sprintf("message %d: ok=%v received=%v %s", j, pr.ok, pr.received, pr.err)
+						break
+					}
+				}
+				rep.Eval(fmt.Sprintf("fault/%s/%s/%s/faulted-call-ok=%v/%s", b.name, target, strings.SplitN(fop, " ", 2)[0], ok1, cls))
+				if cls != "ok" {
+					rep.Violation("C14/"+cls+"-after-storage-fault", fmt.Sprintf("state '%s': datastore operation %d of %d of %s (%s) fails once; afterwards: %s", b.name, i, n, target, fop, firstBad), map[string]interface{}{"state": b.name, "target": target, "fault_at": i})
+				}
+			}
+		}
+	}
+	rep.Sample(map[string]interface{}{"part": "one storage fault during a push or log open", "window": cfg.W, "reference_window": 2})
 }
